@@ -101,11 +101,17 @@ func (p *PlonkChip) checkPartialProducts(
 
 	for i := uint64(0); i <= numPartProds; i += 1 {
 		ppStartIdx := i * quotDegreeFactor
+		// The last chunk is shorter when quotDegreeFactor does not divide the number of
+		// routed wires (plonky2 chunks the numerators/denominators the same way).
+		ppEndIdx := ppStartIdx + quotDegreeFactor
+		if ppEndIdx > uint64(len(numerators)) {
+			ppEndIdx = uint64(len(numerators))
+		}
 		numeProduct := numerators[ppStartIdx]
 		denoProduct := denominators[ppStartIdx]
-		for j := uint64(1); j < quotDegreeFactor; j++ {
-			numeProduct = glApi.MulExtension(numeProduct, numerators[ppStartIdx+j])
-			denoProduct = glApi.MulExtension(denoProduct, denominators[ppStartIdx+j])
+		for j := ppStartIdx + 1; j < ppEndIdx; j++ {
+			numeProduct = glApi.MulExtension(numeProduct, numerators[j])
+			denoProduct = glApi.MulExtension(denoProduct, denominators[j])
 		}
 
 		partialProductCheck := glApi.SubExtension(
